@@ -175,18 +175,20 @@ class Engine:
                 sol.add(a)
             inc = self._inc = {"solver": sol, "stack": [], "nax": nax}
         sol, stack = inc["solver"], inc["stack"]
-        ids = [c.get_id() for c in st.pc]
+        # the stack holds the asserted formulas themselves (not just their ids): a z3 AST id can be reused once the node is
+        # garbage collected, and a stale match would leave constraints of another path on the solver
+        pc = st.pc
         k = 0
-        while k < len(stack) and k < len(ids) and stack[k] == ids[k]:
+        while k < len(stack) and k < len(pc) and (stack[k] is pc[k] or stack[k].eq(pc[k])):
             k += 1
         while len(stack) > k:
             sol.pop()
             stack.pop()
-        for j in range(k, len(ids)):
+        for j in range(k, len(pc)):
             sol.push()
-            if not _has_quantifier(st.pc[j]):
-                sol.add(st.pc[j])   # quantified facts are dropped: over-approximates feasibility (sound)
-            stack.append(ids[j])
+            if not _has_quantifier(pc[j]):
+                sol.add(pc[j])   # quantified facts are dropped: over-approximates feasibility (sound)
+            stack.append(pc[j])
         if extra is None:
             return self._check_patiently(sol) != z3.unsat
         sol.push()
@@ -511,6 +513,8 @@ class Engine:
                     base_pc = len(s.pc)
                     sa = s.fork().assume(g)
                     sb = s.fork().assume(z3.Not(g))
+                    self._narrow(node.test, sa, True)
+                    self._narrow(node.test, sb, False)
                     ra = list(self.exec_block(node.body, sa))
                     rb = list(self.exec_block(node.orelse, sb))
                     m = None
@@ -527,7 +531,27 @@ class Engine:
                             yield x
                     continue
             for s2, b in self.truth(s, v, f"L{self.line(s, node)}"):
+                self._narrow(node.test, s2, b)
                 yield from self.exec_block(node.body if b else node.orelse, s2)
+
+    def _narrow(self, test, st, outcome):
+        """after branching on `x is None` / `x is not None`: an optional local is narrowed to the alternative the branch selects"""
+        if not (isinstance(test, ast.Compare) and len(test.ops) == 1 and isinstance(test.ops[0], (ast.Is, ast.IsNot))
+                and isinstance(test.left, ast.Name) and isinstance(test.comparators[0], ast.Constant) and test.comparators[0].value is None):
+            return
+        name = test.left.id
+        v = st.frame.vars.get(name)
+        if not isinstance(v, SUnion):
+            return
+        is_none = isinstance(test.ops[0], ast.Is) == outcome
+        if is_none:
+            st.frame.vars[name] = None
+            return
+        alts = [(g, a) for g, a in v.alts if a is not None]
+        if len(alts) == 1:
+            st.frame.vars[name] = alts[0][1]
+        elif alts:
+            st.frame.vars[name] = SUnion(alts)
 
     def merge_value(self, g, a, b, sa=None, sb=None):
         if a is b:
@@ -1882,8 +1906,8 @@ _qcache = {}
 def _has_quantifier(e):
     i = e.get_id()
     r = _qcache.get(i)
-    if r is not None:
-        return r
+    if r is not None and r[0].eq(e):       # the cached node is kept alive, so its id cannot have been reused
+        return r[1]
     seen, stack, found = set(), [e], False
     while stack:
         x = stack.pop()
@@ -1900,7 +1924,7 @@ def _has_quantifier(e):
             stack.extend(x.children())
     if len(_qcache) > 200000:
         _qcache.clear()
-    _qcache[i] = found
+    _qcache[i] = (e, found)
     return found
 
 
